@@ -129,7 +129,32 @@ func staircase(t *rapid.T, R int64) []exact.P {
 
 // genSimpleRing returns an unclosed simple ring within [0,R]^2 (falls back to a triangle).
 func genSimpleRing(t *rapid.T, R int64, maxN int) []exact.P {
-	mode := rapid.IntRange(0, 4).Draw(t, "ringmode")
+	mode := rapid.IntRange(0, 5).Draw(t, "ringmode")
+	if mode == 5 {
+		// an axis-aligned rectangle, sometimes with one corner moved along one axis (right trapezoids: the
+		// shapes a too-generous rectangle recogniser would swallow)
+		x0, y0 := rapid.Int64Range(0, R-1).Draw(t, "nx0"), rapid.Int64Range(0, R-1).Draw(t, "ny0")
+		x1, y1 := rapid.Int64Range(x0+1, R).Draw(t, "nx1"), rapid.Int64Range(y0+1, R).Draw(t, "ny1")
+		pts := []exact.P{{X: x0, Y: y0}, {X: x1, Y: y0}, {X: x1, Y: y1}, {X: x0, Y: y1}}
+		if rapid.IntRange(0, 2).Draw(t, "nmove") > 0 {
+			i := rapid.IntRange(0, 3).Draw(t, "ni")
+			d := rapid.Int64Range(-2, 2).Draw(t, "nd")
+			q := pts[i]
+			if rapid.Bool().Draw(t, "naxis") {
+				q.X += d
+			} else {
+				q.Y += d
+			}
+			if q.X >= 0 && q.X <= R && q.Y >= 0 && q.Y <= R {
+				cand := append([]exact.P{}, pts...)
+				cand[i] = q
+				if exact.SimpleRing(cand) {
+					pts = cand
+				}
+			}
+		}
+		return pts
+	}
 	for attempt := 0; attempt < 6; attempt++ {
 		var pts []exact.P
 		switch mode {
